@@ -791,6 +791,13 @@ class Interp:
                 p = v.proj(c)
                 if isinstance(p, View):
                     p = self.settle(p)
+                if isinstance(p, View):
+                    nn = _nullness(p)
+                    if nn is None:
+                        u.append(c)
+                    else:
+                        (t if nn else f).append(c)
+                    continue
                 if isinstance(p, (bool, int)):
                     (t if p else f).append(c)
                 elif isinstance(p, (Obj, Arr, str)):
@@ -1161,6 +1168,17 @@ class Interp:
                 b = self.eval(base, env)
             else:
                 b = self.place(base, env).get(self)
+            if isinstance(b, View):
+                b = self.settle(b)
+            if isinstance(b, View) and self._scalar_type(n.dtype or n.type) and \
+                    all(isinstance(b.proj(c), (Obj, int)) for c in b.cell.cands):
+                objs = [c for c in b.cell.cands if isinstance(b.proj(c), Obj)]
+                if len(objs) != len(b.cell.cands):
+                    if self.on_null_deref:
+                        self.on_null_deref(self, n)
+                    self.refine(b.cell, objs)
+                if len(b.cell.cands) > 1:
+                    return _ViewFieldPlace(b, n.name)
             b = self.deref_target(b, n)
             if isinstance(b, Obj):
                 return FieldPlace(b, n.name, n.dtype if False else None)
@@ -1207,6 +1225,16 @@ class Interp:
         if k == 'CallExpr' or k == 'ConditionalOperator' or k == 'BinaryOperator' or k == 'StmtExpr':
             return _ValPlace(self.eval(n, env))
         raise Unsupported('lvalue kind %s at %s:%d' % (k, self.unit.name, n.line))
+
+    def _scalar_type(self, t):
+        t = (t or '').replace('const ', '').strip()
+        if t.endswith(']'):
+            return False
+        if t.endswith('*'):
+            return True
+        if int_type(t) or t in ('bool', '_Bool') or t in self.unit.enum_types or t.replace('enum ', '') in self.unit.enum_types:
+            return True
+        return False
 
     def deref_target(self, b, n):
         """b is a pointer value used with -> (or a struct value with .)"""
@@ -1395,6 +1423,17 @@ class Interp:
         return self.arith(op, a, b, t, n)
 
     def cmp(self, op, a, b):
+        if isinstance(a, View) or isinstance(b, View):
+            x, y = (a, b) if isinstance(a, View) else (b, a)
+            x = self.settle(x)
+            if isinstance(x, View):
+                nn = _nullness(x)
+                if isinstance(y, int) and y == 0 and nn is not None and op in ('==', '!='):
+                    return int(nn if op == '!=' else not nn)
+                x = self.force(x)
+            if isinstance(y, View):
+                y = self.force(y)
+            a, b = (x, y) if isinstance(a, View) else (y, x)
         if isinstance(a, bool):
             a = int(a)
         if isinstance(b, bool):
@@ -1588,6 +1627,24 @@ class Interp:
         return None, None
 
 
+def _nullness(v):
+    """True: certainly non-null, False: certainly null, None: unknown"""
+    if isinstance(v, View):
+        rs = set()
+        for c in v.cell.cands:
+            rs.add(_nullness(v.proj(c)))
+        if len(rs) == 1:
+            return rs.pop()
+        return None
+    if isinstance(v, bool):
+        return bool(v)
+    if isinstance(v, int):
+        return v != 0
+    if isinstance(v, (Obj, Arr, str, _Ref, _FnRef)):
+        return True
+    return None
+
+
 def _concrete(v):
     return isinstance(v, (int, bool, str, Obj, float)) or v is None
 
@@ -1628,6 +1685,22 @@ class _ValPlace:
 
     def set(self, it, v):
         self.v = v
+
+
+class _ViewFieldPlace:
+    """scalar field read through a pointer that still has several candidates"""
+    __slots__ = ('view', 'f')
+
+    def __init__(self, view, f):
+        self.view = view; self.f = f
+
+    def get(self, it):
+        v, f = self.view, self.f
+        return View(v.cell, lambda c: it.read_field(v.proj(c), f), v.tag + '.' + f)
+
+    def set(self, it, val):
+        o = it.force(self.view)
+        FieldPlace(o, self.f).set(it, val)
 
 
 class _ObjSelfPlace:
